@@ -67,9 +67,11 @@ PROPS = {
         assumptions=["a call whose context was cancelled before it returned is only required to return a context error (promptness is not timed)"],
     ),
     "C10": dict(
-        runs=[bp_sys("C10", 50, 1500)],
+        runs=[bp_sys("C10", 50, 1500),
+              dict(harness="bp", name="race",
+                   args=lambda tier, seed, casedir, coq: ["race", "--n", str(q(tier, 3000, 100000)), "--seed", str(seed)], coq_timeout=3000)],
         rule="whole-processor runs with metadata_keys of 1-3 (mixed-case) keys, values absent / empty / single / multi-valued, limits 0-3, 3-7 concurrent "
-             "callers racing for the last slots; same-shard relation, export-visible metadata and admission counts evaluated by the Coq model",
+             "callers racing for the last slots; race: 3000 rounds (thorough 100000) of up to 16 goroutines released together, each the first arrival of a distinct combination, limit 1-3; same-shard relation, export-visible metadata and admission counts evaluated by the Coq model",
         trusted_base=BP_TB + ["attribute.NewSet equality is modelled as per-key equality of String/StringSlice attributes; sync.Map Load/LoadOrStore and the mutex are atomic events"],
         assumptions=["combination strings are interned by the harness; requests after Shutdown are outside the domain"],
     ),
